@@ -7,7 +7,9 @@ P  spec/xml/XmlStream.tla  for ANY input: Attribute tokens only inside a tag, a 
                            (generator, xml.Lexer, encoding/xml)
 T  spec/xml/XmlTrace.tla   judges the traces of harness/suites/xmldoc (generated documents in several spellings + seeded mutations)
 """
+import concurrent.futures
 import json
+import os
 
 WS = (9, 10, 13, 32)
 NAMED = ("StartTag", "StartTagPI", "EndTag", "Attribute", "Text", "Comment", "CDATA", "DOCTYPE")
@@ -110,7 +112,7 @@ def classify(f):
             return x["k"], features(o, x, nxt), "text", ev
         return x["k"], features(o, x, nxt), "attrval", ev
     if ev["ev"] == "Err":
-        if o.get("nul") and ev.get("eof"):
+        if o.get("nul") and (ev.get("eof") or ev.get("none")):
             return "stream", [], "nul-ends-silently", ev
         if o.get("wf"):
             if not ev.get("eof"):
@@ -176,30 +178,45 @@ def judge(ck, fails, origin):
                 ck.violation(sig, "", {})
 
 
-def one_round(ck, cases, label, variants, muts, need_atoms=None):
-    tp = ck.path("trace-%s.ndjson" % label)
-    s = ck.drive("xmldoc", "replay", "-cases", cases, "-out", tp, "-seed", ck.seed, "-variants", variants, "-muts", muts, timeout=1200)
-    if s["cases"] == 0:
+def one_round(ck, cases, label, variants, muts, need_atoms=None, chunk=20000):
+    """Replay the cases (in chunks, so that a TLC validation shard stays small), validate, return the rejected events."""
+    lines = open(cases).readlines()
+    if not lines:
         ck.fatal("generator %s produced no cases" % label)
-    if s.get("std_rejected"):
-        ck.fatal("generator %s: %d generated documents are rejected by encoding/xml (the generator must only produce documents the "
-                 "reference reader accepts), e.g. %s" % (label, s["std_rejected"], json.dumps(s.get("std_rejected_sample"))))
+    fails, atom_count, kind_count, with_nul = [], {}, {}, 0
+    for n, lo in enumerate(range(0, len(lines), chunk)):
+        cp, tp = ck.path("cases-%s-%d.ndjson" % (label, n)), ck.path("trace-%s-%d.ndjson" % (label, n))
+        with open(cp, "w") as f:
+            f.writelines(lines[lo:lo + chunk])
+        s = ck.drive("xmldoc", "replay", "-cases", cp, "-out", tp, "-seed", ck.seed, "-variants", variants, "-muts", muts, timeout=1200)
+        if s.get("std_rejected"):
+            ck.fatal("generator %s: %d generated documents are rejected by encoding/xml (the generator must only produce documents the "
+                     "reference reader accepts), e.g. %s" % (label, s["std_rejected"], json.dumps(s.get("std_rejected_sample"))))
+        for k, v in s["atom_count"].items():
+            atom_count[k] = atom_count.get(k, 0) + v
+        for k, v in s["kind_count"].items():
+            kind_count[k] = kind_count.get(k, 0) + v
+        with_nul += s.get("with_nul", 0)
+        ck.cov["evaluations"] += s["executions"]
+        ck.cov["distinct_nontrivial"] += s["distinct_nontrivial"]
+        if n == 0:
+            ck.cov["samples"] += (s.get("samples") or [])[:2]
+        for k in ("mutated", "with_nul"):
+            ck.cov[k] = ck.cov.get(k, 0) + s.get(k, 0)
+        fails += ck.validate("xml", "XmlTrace", "XmlTrace.cfg", tp, timeout=1200)
+        os.remove(tp)
     if need_atoms is not None:
-        missing = sorted(a for a in need_atoms if not s["atom_count"].get(a))
+        missing = sorted(a for a in need_atoms if not atom_count.get(a))
         if missing:
             ck.fatal("vacuity: atoms of XmlDoc.tla never used by the %s run: %s" % (label, missing))
         kinds = ("StartTag", "StartTagPI", "EndTag", "Attribute", "Text", "Comment", "CDATA", "DOCTYPE", "StartTagClose", "StartTagCloseVoid", "StartTagClosePI")
-        missing = [k for k in kinds if not s["kind_count"].get(k)]
+        missing = [k for k in kinds if not kind_count.get(k)]
         if missing:
             ck.fatal("vacuity: token types never expected by the %s run: %s" % (label, missing))
-        if not s.get("with_nul"):
+        if not with_nul:
             ck.fatal("vacuity: no mutated document contains a NUL byte")
-    ck.cov["evaluations"] += s["executions"]
-    ck.cov["distinct_nontrivial"] += s["distinct_nontrivial"]
-    ck.cov["samples"] += (s.get("samples") or [])[:2]
-    for k in ("mutated", "with_nul"):
-        ck.cov[k] = ck.cov.get(k, 0) + s.get(k, 0)
-    return ck.validate("xml", "XmlTrace", "XmlTrace.cfg", tp, timeout=1200)
+        ck.cov["atom_use"] = {"min": min(atom_count.get(a, 0) for a in need_atoms), "classes": len(need_atoms)}
+    return fails
 
 
 # every atom class of XmlDoc.tla (productions + pieces); the quick run must use each at least once
@@ -217,17 +234,23 @@ def run(ck):
     # exhaustive: every derivation within the bounds
     cfg = "Gen_thorough.cfg" if thorough else "Gen_quick.cfg"
     cases = ck.path("cases.ndjson")
-    r = ck.tlc("xml", "XmlDoc", cfg, label="generator: XML 1.0 derivations (exhaustive within bounds)", env={"VERIF_CASES": cases}, timeout=900)
-    fails += one_round(ck, cases, "exhaustive", 3 if thorough else 2, 2 if thorough else 1, need_atoms=ATOMS)
+    ck.tlc("xml", "XmlDoc", cfg, label="generator: XML 1.0 derivations (exhaustive within bounds)", env={"VERIF_CASES": cases}, timeout=900)
+    fails += one_round(ck, cases, "exhaustive", 2 if thorough else 3, 1 if thorough else 2, need_atoms=ATOMS)
     ck.cov["exhaustive"] = True
-    ck.cov["constants"] = {"exhaustive": cfg}
+    ck.cov["constants"] = {"exhaustive": dict(cfg=cfg, **BOUNDS[cfg])}
     if thorough:
-        # deep random derivations of the same specification
+        # deep random derivations of the same specification: SIM_PROCS single-worker simulations (deterministic per seed) in parallel
+        def sim(k):
+            out = ck.path("cases-sim-%d.ndjson" % k)
+            ck.tlc("xml", "XmlDoc", "Gen_deep.cfg", label="generator: deep random derivations (-simulate)", env={"VERIF_CASES": out},
+                   simulate=SIM_TRACES, depth=400, seed=ck.seed * 100 + k, workers=1, timeout=900, count=False)
+            return out
         cases2 = ck.path("cases-sim.ndjson")
-        ck.tlc("xml", "XmlDoc", "Gen_deep.cfg", label="generator: deep random derivations (-simulate)", env={"VERIF_CASES": cases2},
-               simulate=SIM_TRACES, depth=400, seed=ck.seed, workers=1, timeout=900, count=False)
+        with concurrent.futures.ThreadPoolExecutor(max_workers=SIM_PROCS) as ex, open(cases2, "w") as f:
+            for out in ex.map(sim, range(SIM_PROCS)):
+                f.write(open(out).read())
         fails += one_round(ck, cases2, "deep", 2, 1)
-        ck.cov["constants"]["simulate"] = {"cfg": "Gen_deep.cfg", "traces": SIM_TRACES, "depth": 400}
+        ck.cov["constants"]["simulate"] = dict(cfg="Gen_deep.cfg", processes=SIM_PROCS, traces_each=SIM_TRACES, depth=400, **BOUNDS["Gen_deep.cfg"])
     judge(ck, fails, "thorough" if thorough else "quick")
     ck.cov["rule"] = ("every document derivable from the XML 1.0 productions transcribed in XmlDoc.tla within the bounds (constructs, variations, "
                       "pieces per body), each spelled several times (plain spelling + seeded spellings of names, white space, text, pieces) and "
@@ -244,7 +267,10 @@ def run(ck):
         "tokens are judged up to the first error report (lexers.RunTokens)"]
 
 
-SIM_TRACES = 6000
+SIM_TRACES = 700
+SIM_PROCS = 8
+BOUNDS = {"Gen_quick.cfg": dict(MaxC=3, MaxV=2, MaxT=4, MaxP=2), "Gen_thorough.cfg": dict(MaxC=4, MaxV=2, MaxT=5, MaxP=2),
+          "Gen_deep.cfg": dict(MaxC=9, MaxV=6, MaxT=15, MaxP=3)}
 
 
 def replay(ck, path):
